@@ -55,7 +55,9 @@ void BiCGStab(CSRMatrix* A, Vector& x, Vector& b, std::vector<double>& res, doub
     iter = 0;
 
     // Main BiCGStab Loop
-    while (true)
+    // Test before every update (as the distributed BiCGStab does): an exact
+    // initial guess is returned unchanged and at most max_iter updates are made
+    while (norm_r > tol && iter < max_iter)
     {
         // alpha_i = (r_i, rstar_i) / (A*p_i, pstar_i)
         A->mult(p, Ap);
@@ -92,22 +94,18 @@ void BiCGStab(CSRMatrix* A, Vector& x, Vector& b, std::vector<double>& res, doub
         norm_r = r.norm(2);
         res.emplace_back(norm_r);
 
-	if (norm_r < tol)
-	{
-            printf("%d Iterations Required to Converge.\n", iter);
-            printf("2 Norm of Residual: %.15f\n\n", norm_r);
-	    return;
+        iter++;
+    }
 
-       	}
-
-	if (iter == max_iter)
-	{
-            printf("Max Iterations Reached.\n");
-            printf("2 Norm of Residual: %.15f\n\n", norm_r);
-	    return;
-	}
-
-	iter++;
+    if (iter == max_iter)
+    {
+        printf("Max Iterations Reached.\n");
+        printf("2 Norm of Residual: %.15f\n\n", norm_r);
+    }
+    else
+    {
+        printf("%d Iterations Required to Converge.\n", iter);
+        printf("2 Norm of Residual: %.15f\n\n", norm_r);
     }
 }
 }
